@@ -323,3 +323,39 @@ func C16SubscribersTold() {
 	}
 	sym.Reach("subscribers-told-done")
 }
+
+// C16TerminateThenCall: a client terminates an object remotely and, as soon as it HAS the answer,
+// calls it again; a second client calls it concurrently. Once the terminate request is answered the
+// object is gone: the follow-up call is refused without invoking the object (delay budget explores
+// what the server does between answering and removing).
+func C16TerminateThenCall() {
+	sym.Schedules(false) // set-up under the default schedule
+	srv, _, _, a := zzAuthedServer()
+	root := newZZObj()
+	service, err := srv.NewService("objects", root.front)
+	sym.Assert(err == nil, "service-registered")
+	if err != nil {
+		return
+	}
+	sid := service.ServiceID()
+	o := newZZObj()
+	id, err := service.Add(o.front)
+	sym.Assert(err == nil, "add-ok")
+	before := len(a.sentMessages())
+	sym.Schedules(true)
+	a.inject(zzFrame(net.Call, sid, id, 3, 70, zzLE32(id)))
+	// wait for the answer to terminate, and nothing more
+	a.waitSent(before + 1)
+	calls := atomic.LoadInt32(&o.calls)
+	out := zzRoundTrip(a, zzFrame(net.Call, sid, id, 1000, 71, nil))
+	sym.Assert(len(out) >= 1, "terminate-then-call/call-answered")
+	for _, m := range out {
+		if m.Header.ID == 71 {
+			sym.Assert(m.Header.Type == net.Error, "terminate-then-call/terminated-object-still-answers")
+		}
+	}
+	sym.Assert(atomic.LoadInt32(&o.calls) == calls, "terminate-then-call/terminated-object-still-invoked")
+	sym.Quiesce()
+	sym.Assert(atomic.LoadInt32(&o.terminated) == 1, "terminate-then-call/termination-hook-exactly-once")
+	sym.Reach("terminate-then-call-done")
+}
